@@ -3,7 +3,7 @@
 ID="$1"; shift
 cd /verif
 [ -z "$(git -C /repo status --porcelain)" ] || { echo "/repo not clean"; exit 2; }
-git -C /repo apply "seeded/$ID/patch.diff" || exit 2
+git -C /repo apply "/verif/seeded/$ID/patch.diff" || exit 2
 export VF_EVIDENCE_DIR="/tmp/mut/official_ev" VF_REPLAY_DIR="/tmp/mut/official_rp_$ID"
 ./vf check "$ID" "$@" > "/tmp/mut/official_$ID.log" 2>&1; RC=$?
 git -C /repo checkout -- .
